@@ -70,6 +70,14 @@ Print Assumptions C18_untouched.
 Print Assumptions C18_backup_kept.
 Print Assumptions C18_check_writes_nothing.
 
+(* an idle run: when every source tag is already in place at the target (it names the source image, or the configured
+   platform's image, or its media type is excluded), a run of any kind writes nothing - no copy and no backup *)
+From Verif Require Import Proofs.C18i.
+Theorem C18_idle_run_writes_nothing : forall matches act backup ad src tgt,
+  (forall t, In t src -> in_place tgt t) -> sync_repo matches act backup ad src tgt = tgt.
+Proof. exact idle_run_writes_nothing. Qed.
+Print Assumptions C18_idle_run_writes_nothing.
+
 Example C18_nonvacuous :
   let matches := fun f t => match f with 1 => Nat.leb 10 t && Nat.leb t 19 | 2 => Nat.eqb t 12 | _ => false end in
   let src := [mkT 11 101 true None; mkT 12 102 true None; mkT 13 103 false None; mkT 14 104 true (Some 140); mkT 25 105 true None] in
